@@ -2,15 +2,17 @@
    defaults.  Only theorem statements closed by [exact]; proofs in
    Save/SaveProofs.v. *)
 From Coq Require Import List ZArith Bool.
-From RtoscV Require Import Save.TopoModel Save.SaveModel Save.SaveProofs.
+From Coq Require Import Permutation.
+From RtoscV Require Import Save.TopoModel Save.SaveModel Save.SaveProofs Save.RoundProofs.
 Import ListNotations.
 Local Open Scope Z_scope.
 
-(* A parameter appears in the savefile exactly when the walk reaches it and its
-   current value differs from the default the state selects for it. *)
+(* A parameter appears in the savefile exactly when it declares a default, the
+   walk reaches it and its current value differs from the default the state
+   selects for it. *)
 Theorem C12_minimal : forall a st l,
   In l (save_lines a st) <->
-  exists i, (i < length a)%nat /\ live a st i = true /\
+  exists i, (i < length a)%nat /\ p_nodef (port_at a i) = false /\ live a st i = true /\
             same_value (val_at st i) (default_of a st i) = false /\ l = the_line a st i.
 Proof. exact save_lines_spec. Qed.
 
@@ -57,3 +59,57 @@ Proof. exact reject_propagates. Qed.
 Theorem C12_stored_value_is_a_fixed_point : forall p v v', store p v = Some v' ->
   match p_kind p with KO => True | _ => store p v' = Some v' end.
 Proof. exact store_idem. Qed.
+
+(* ROUND TRIP.  Full statement: for any state an application can reach, the
+   savefile loaded into a default-initialised instance reproduces that state and
+   loading reports one message per saved line.
+   Proved as a composition over the stages of the real pipeline (Section
+   variables of Save/RoundProofs.v); the hypotheses [stage_hypotheses] are the
+   other properties' statements about those stages:
+     C09  the walk reaches exactly the live ports, each once
+     C16  rtosc_arg_vals_eq is the value equality same_value
+     C10  scanning the printed lines gives the lines back (with non-negative byte counts)
+     C04 (+C14)  a rebuilt message is delivered to the port with that address and stored by its callback
+     C13  the sort returns a permutation of the lines that puts a preset selector in front of its dependents
+   _partial because of [side_conditions]: (1) no pointer sub-trees, (2) no "#N"
+   leaf arrays, (3) distinct addresses, (4) a preset selector has a plain default
+   and (5) stands beside its dependents, (6-8) state and defaults hold one value
+   per port, (9) the state is stable (sending a saved value stores that value:
+   C12_stable_non_option gives it for every stored value of a non-option port).
+   "Reproduces": every live parameter that declares a default holds the saved
+   value, or one that rtosc_arg_vals_eq identifies with it (-0.0 / 0.0). *)
+Theorem C12_roundtrip_partial :
+  forall text walk av_eq print_lines scan_text dispatch sort_lines a st,
+    stage_hypotheses text walk av_eq print_lines scan_text dispatch sort_lines a st ->
+    side_conditions a st ->
+    exists fin,
+      real_load text scan_text dispatch sort_lines a
+                (real_save text walk av_eq print_lines a st) (initial a)
+      = Some (Z.of_nat (length (save_lines a st)), fin) /\
+      forall q, (q < length a)%nat -> p_nodef (port_at a q) = false -> live a st q = true ->
+                restored st fin q.
+Proof. exact roundtrip_partial. Qed.
+
+(* the same for the abstract application's own load loop, for ANY order of the
+   saved lines that is a permutation respecting selector-before-dependent *)
+Theorem C12_roundtrip_abstract_partial : forall a st ord,
+  side_conditions a st -> Permutation ord (saved a st) -> respects (before a) ord ->
+  exists fin, apply_all a (map (the_line a st) ord) (initial a) = (fin, true) /\
+    length ord = length (save_lines a st) /\
+    forall q, (q < length a)%nat -> p_nodef (port_at a q) = false -> live a st q = true ->
+              restored st fin q.
+Proof. exact roundtrip_abstract. Qed.
+
+Theorem C12_stable_non_option : forall p v v', p_kind p <> KO -> store p v = Some v' ->
+  store p (shown p v') = Some v'.
+Proof. exact stable_non_option. Qed.
+
+(* non-vacuity of the round trip: a preset selector (1, default 0) and a
+   dependent (9; preset 1 selects 7) satisfy the side conditions; selector first
+   restores the state, dependent first loses its value - the order matters. *)
+Theorem C12_roundtrip_nonvacuous :
+  side_conditions ex_app ex_state /\ saved ex_app ex_state = [0%nat; 1%nat] /\
+  respects (before ex_app) [0%nat; 1%nat] /\
+  apply_all ex_app (map (the_line ex_app ex_state) [0%nat; 1%nat]) (initial ex_app) = (ex_state, true) /\
+  apply_all ex_app (map (the_line ex_app ex_state) [1%nat; 0%nat]) (initial ex_app) = ([[VI 1]; [VI 7]], true).
+Proof. exact roundtrip_nonvacuous. Qed.
